@@ -38,7 +38,7 @@ def shards(tier):
         out.append({"name": "closure.np.interp.%d" % i, "mode": "interp", "backend": "np", "fn": "closure", "part": i, "parts": 2 if q else 8,
                     "stride": 40 if q else 2})
     for i in range(2 if q else 10):
-        out.append({"name": "walk.np.jit.%d" % i, "mode": "jit", "backend": "np", "fn": "walk", "n": 40 if q else 250, "len": 200 if q else 2000})
+        out.append({"name": "walk.np.jit.%d" % i, "mode": "jit", "backend": "np", "fn": "walk", "n": 40 if q else 100, "len": 200 if q else 2000})
     out.append({"name": "walk.np.interp", "mode": "interp", "backend": "np", "fn": "walk", "n": 10 if q else 100, "len": 150 if q else 600})
     out.append({"name": "wide.np.jit", "mode": "jit", "backend": "np", "fn": "wide", "n": 1 if q else 12, "len": 40 if q else 150})
     return out
